@@ -173,7 +173,8 @@ http_response_omit_header (request_st * const r, const data_string * const ds)
             && buffer_eq_icase_ssn(ds->key.ptr+sizeof("X-LIGHTTPD-")-1,
                                    CONST_STR_LEN("KBytes-per-second"))) {
             /* "X-LIGHTTPD-KBytes-per-second" */
-            off_t limit = strtol(ds->value.ptr, NULL, 10) << 10; /*(*=1024)*/
+            off_t limit = strtol(ds->value.ptr, NULL, 10);
+            limit = (limit > 0 && limit < ((off_t)1 << 52)) ? limit << 10 : 0; /*(*=1024)*/
             if (limit > 0
                 && (limit < r->conf.bytes_per_second
                     || 0 == r->conf.bytes_per_second)) {
